@@ -99,18 +99,21 @@ func driveCursor(c *core.Ctx, r *core.Rand, k c14Kind, info map[string]any) {
 				}
 			}
 		}()
-		if !check() {
+		if label != "blind next" && !check() {
 			return
 		}
 		for _, s := range steps {
 			trace = append(trace, s.Op+"("+fmt.Sprintf("%q", s.Arg)+")")
 			switch s.Op {
-			case "next":
+			case "next", "blind-next":
 				if !ref.valid() {
 					continue
 				}
 				cur.Next()
 				ref.next()
+				if s.Op == "blind-next" {
+					continue // the caller moves on without having looked at the element
+				}
 			case "seek":
 				if k.strSeek {
 					cur.(ast.TypeSeekableSetCursor).SeekToString(s.Arg)
@@ -130,6 +133,17 @@ func driveCursor(c *core.Ctx, r *core.Rand, k c14Kind, info map[string]any) {
 		enum = append(enum, step{Op: "next"})
 	}
 	run("enumeration", enum)
+	// the first thing the caller does is Next (once or twice), without a look at the first element; then it enumerates
+	if len(k.set) > 0 {
+		for blind := 1; blind <= 2 && blind <= len(k.set); blind++ {
+			steps := []step{}
+			for i := 0; i < blind; i++ {
+				steps = append(steps, step{Op: "blind-next"})
+			}
+			steps[len(steps)-1].Op = "next" // look after the last one
+			run("blind next", append(steps, enum...))
+		}
+	}
 	c.Cover("cursor_kind", k.name)
 	c.Nontrivial(k.name, fmt.Sprintf("%q", k.set), "enum")
 	if k.seekable || k.strSeek {
@@ -189,7 +203,7 @@ func init() {
 		Rule: "for subsets of an 8-element byte-string universe (\"\", a, a\\x00, aa, ab, b, b\\xff, \\xff; the empty string only where the storage admits it) every cursor kind the library hands out " +
 			"(raw / typed bolt cursors forward and reverse, TypedBucket.OpenCursor/OpenTypedCursor/OpenSeekableCursor/IterateStringList(InDirection), set index OpenValueCursor/OpenKeyCursor, GetRelatedEntitiesCursor, " +
 			"LinkCollection.IterateLinks, ref-counted IterateLinks, set-symbol runtime cursor with SeekToString, IterateIds/IterateValidIds with Seek, NewFilteredCursor, TreeSet.ToCursor, NewUnionSetCursor, IteratorMatchingAllOf/AnyOf, empty cursors) " +
-			"(a TreeSet also after it kept growing between cursors) is driven through a full enumeration, every one of 20 seek targets (present, absent, before first, after last, shared prefixes) and random Next/Seek interleavings and compared step by step with a sorted-slice reference cursor; every slice Current handed out is kept and must still hold its element when the run is over; " +
+			"(a TreeSet also after it kept growing between cursors) is driven through a full enumeration (also one that starts with one or two Next calls before the first look at the cursor), every one of 20 seek targets (present, absent, before first, after last, shared prefixes) and random Next/Seek interleavings and compared step by step with a sorted-slice reference cursor; every slice Current handed out is kept and must still hold its element when the run is over; " +
 			"thorough enumerates all 256 subsets (exhaustive over kind x subset x target), quick a seeded 48 incl. the empty and the full set. non-trivial = distinct (kind, subset, target) triples",
 		Assumptions: []string{"Next is not called on an exhausted cursor (unspecified); Seek on an exhausted cursor is", "dotted (stacked) set cursors enumerate a multiset in path order and are compared as multisets only"},
 		Exhaustive:  func(t core.Tier) bool { return t == core.Thorough },
@@ -208,7 +222,7 @@ func init() {
 				"setIndex.OpenValueCursor/fwd", "setIndex.OpenValueCursor/rev", "setIndex.OpenKeyCursor/fwd", "setIndex.OpenKeyCursor/rev",
 				"GetRelatedEntitiesCursor/fwd", "GetRelatedEntitiesCursor/rev", "LinkCollection.IterateLinks", "RefCountedLinkCollection.IterateLinks/fwd", "RefCountedLinkCollection.IterateLinks/rev",
 				"setSymbolRuntime.OpenCursor", "setSymbolRuntime.OpenCursor (reopened on a row without the bucket)", "setSymbolRuntime.OpenCursor (reopened on another row)", "IterateIds", "IterateValidIds", "IterateIds(extended child store)", "IterateValidIds(extended child store)", "IterateIds(filtered)", "NewFilteredCursor", "TreeSet.ToCursor/fwd", "TreeSet.ToCursor/rev", "TreeSet.ToCursor (grown after an earlier cursor)/fwd", "TreeSet.ToCursor (grown after an earlier cursor)/rev", "NewUnionSetCursor/fwd", "NewUnionSetCursor/rev",
-				"IteratorMatchingAnyOf/1", "IteratorMatchingAnyOf/2/fwd", "IteratorMatchingAnyOf/2/rev", "IteratorMatchingAllOf/1", "IteratorMatchingAllOf/2", "IteratorMatchingAllOf/3 order 0", "IteratorMatchingAllOf/3 order 3", "IteratorMatchingAllOf/3 order 5", "IteratorMatchingAllOf/3 order 7", "IteratorMatchingAnyOf/3", "IteratorMatchingAnyOf/2 provider reused", "TypedBucket.OpenCursor/fwd while a reverse cursor is open", "TypedBucket.IterateStringList while a reverse list cursor is open", "TypedBucket.OpenTypedCursor/rev while a forward cursor is open", "EmptyCursor", "stackedCursor(dotted set)", "stackedCursor(dotted set ending in a scalar)"}}
+				"IteratorMatchingAnyOf/1", "IteratorMatchingAnyOf/2/fwd", "IteratorMatchingAnyOf/2/rev", "IteratorMatchingAllOf/1", "IteratorMatchingAllOf/2", "IteratorMatchingAllOf/3 order 0", "IteratorMatchingAllOf/3 order 3", "IteratorMatchingAllOf/3 order 5", "IteratorMatchingAllOf/3 order 7", "IteratorMatchingAnyOf/3", "IteratorMatchingAnyOf/2 provider reused", "TypedBucket.OpenCursor/fwd while a reverse cursor is open", "TypedBucket.IterateStringList while a reverse list cursor is open", "TypedBucket.OpenTypedCursor/rev while a forward cursor is open", "EmptyCursor", "stackedCursor(dotted set)", "stackedCursor(dotted set ending in a scalar)", "sub-query cursor over a self-referencing set"}}
 		},
 	})
 }
@@ -234,9 +248,12 @@ func runC14(c *core.Ctx, idx int) {
 
 	items := &schema.StoreDef{Type: "items", BasePath: []string{"stores"},
 		Fields: []schema.Field{{Name: "roles", Kind: schema.KList}, {Name: "hubs", Kind: schema.KList, FK: "hubs", Derived: true}, {Name: "rhubs", Kind: schema.KList, FK: "hubs", Derived: true},
-			{Name: "tags", Kind: schema.KList}, {Name: "grp", Kind: schema.KStr}},
+			{Name: "tags", Kind: schema.KList}, {Name: "grp", Kind: schema.KStr},
+			// a link collection from the store to itself: kids <-> parents
+			{Name: "kids", Kind: schema.KList, FK: "items", Derived: true}, {Name: "parents", Kind: schema.KList, FK: "items", Derived: true}},
 		SetIdx: []string{"roles"},
-		Links:  []schema.LinkDef{{Field: "hubs", Target: "hubs", TargetField: "items"}, {Field: "rhubs", Target: "hubs", TargetField: "ritems", RefCounted: true}}}
+		Links: []schema.LinkDef{{Field: "hubs", Target: "hubs", TargetField: "items"}, {Field: "rhubs", Target: "hubs", TargetField: "ritems", RefCounted: true},
+			{Field: "kids", Target: "items", TargetField: "parents"}, {Field: "parents", Target: "items", TargetField: "kids"}}}
 	hubs := &schema.StoreDef{Type: "hubs", BasePath: []string{"stores"},
 		Fields: []schema.Field{{Name: "lst", Kind: schema.KList}, {Name: "keys", Kind: schema.KList}, {Name: "items", Kind: schema.KList, FK: "items", Derived: true}, {Name: "ritems", Kind: schema.KList, FK: "items", Derived: true}},
 		SetIdx: []string{"keys"},
@@ -253,6 +270,7 @@ func runC14(c *core.Ctx, idx int) {
 	ist, hst := sc.St("items"), sc.St("hubs")
 	// second role "odd" for every other item (for AllOf/AnyOf with two values)
 	var odd, both, hi, oddHi []string
+	kidsOf := map[string][]string{}
 	err = db.Update(nil, func(ctx boltz.MutateContext) error {
 		tx := ctx.Tx()
 		raw, err := tx.CreateBucketIfNotExists([]byte("raw"))
@@ -319,6 +337,15 @@ func runC14(c *core.Ctx, idx int) {
 		for _, s := range ne {
 			if _, err := hst.RcLinks["ritems"].IncrementLinkCount(tx, []byte("hub"), []byte(s)); err != nil {
 				return err
+			}
+		}
+		// every item has the two items behind it as kids (the last ones have one or none)
+		for i, s := range ne {
+			for _, k := range ne[min(i+1, len(ne)):min(i+3, len(ne))] {
+				if err := ist.Links["kids"].AddLinks(tx, s, k); err != nil {
+					return err
+				}
+				kidsOf[s] = append(kidsOf[s], k)
 			}
 		}
 		return nil
@@ -527,6 +554,30 @@ func runC14(c *core.Ctx, idx int) {
 				}
 				c.Cover("cursor_kind", "stackedCursor(dotted set)")
 			}
+			// the cursor of a sub-query over a set that links the store to itself, whose predicate opens the same set
+			// on the elements: count(from kids where isEmpty(kids)) - the kids without kids of their own
+			for want := 0; want <= 2; want++ {
+				var exp []string
+				for _, s := range ne {
+					n := 0
+					for _, k := range kidsOf[s] {
+						if len(kidsOf[k]) == 0 {
+							n++
+						}
+					}
+					if n == want {
+						exp = append(exp, s)
+					}
+				}
+				sort.Strings(exp)
+				q := fmt.Sprintf("count(from kids where isEmpty(kids)) = %d", want)
+				ids, _, err := ist.Store.QueryIds(tx, q)
+				c.Eval()
+				if err != nil || fmt.Sprint(ids) != fmt.Sprint(exp) {
+					c.Violationf("C14 sub-query cursor over a set linking the store to itself: elements differ", info, "query %q: got %q err=%v, expected %q (kids %v)", q, ids, err, exp, kidsOf)
+				}
+			}
+			c.Cover("cursor_kind", "sub-query cursor over a self-referencing set")
 			// hub.items.grp: one value per item, neighbouring items share theirs: every one of them is an element
 			if gsym, ok := hst.Store.GetSymbol("items.grp").(boltz.RuntimeEntitySetSymbol); ok {
 				var gexp, ggot []string
